@@ -96,6 +96,9 @@ let () =
       let ops_l = List.map wop_of_tok (split ',' ops) in
       let gobs = List.map obs_of_tok (split ',' obs) in
       let log = bytes_list_of_tok log in
+      (* "t<k>" / "d<k>": the destination fails from its k-th write on with a timeout-type error (the models know one
+         kind of destination failure: what the writer owes the peer does not depend on the kind) *)
+      let fail = if String.length fail > 1 && (fail.[0] = 't' || fail.[0] = 'd') then String.sub fail 1 (String.length fail - 1) else fail in
       let fail_at = if fail = "-" then None else Some (ni (int_of_string fail)) in
       let masks = masks_of (List.concat log) in
       (match mk_writer ctor st op exts masks fail_at with
@@ -119,6 +122,35 @@ let () =
                 destination no write or flush has a reason to fail (WriteThrough, which refuses a non-empty
                 buffer, is left out) *)
              Some "a write or flush failed although the destination works and at most one extension is attached"
+           else if fail = "-" && List.length exts <= 1
+                   && List.exists (function WSetExt _ -> true | _ -> false) ops_l
+                   && List.for_all (function WSetExt xs -> List.length xs <= 1 | WReset _ | WResetOp _ | WDisableFlush -> false | _ -> true) ops_l
+                   && List.for_all (fun ob -> ob.o_err = None) gobs
+                   && (let rec rest_points prev = function
+                         | [] -> true
+                         | st :: r -> (match st.s_op with
+                             | WSetExt _ -> (match prev with None -> true | Some p -> p.s_op = WFlush && int_of_n p.s_obs.o_buffered = 0) && rest_points (Some st) r
+                             | _ -> rest_points (Some st) r) in
+                       rest_points None steps) then begin
+             (* SetExtensions between two messages (right after a final flush, or before the first write): from there on
+                the writer is one with the NEW extension list - possibly the empty one - so every segment between two
+                such calls is judged by the history monitor with the extensions attached during it *)
+             let rec drop n l = if n <= 0 then l else match l with [] -> [] | _ :: r -> drop (n-1) r in
+             let rec segs cur_exts cur_size base acc segsacc = function
+               | [] -> List.rev ((cur_exts, cur_size, base, List.rev acc) :: segsacc)
+               | st :: r -> (match st.s_op with
+                   | WSetExt xs -> segs xs st.s_obs.o_size (int_of_n st.s_obs.o_calls) [] ((cur_exts, cur_size, base, List.rev acc) :: segsacc) r
+                   | _ -> segs cur_exts cur_size base (st :: acc) segsacc r) in
+             let all = segs exts w0.w_buflen 0 [] [] steps in
+             let ok = List.for_all (fun (xs, size, base, sts) ->
+               sts = [] ||
+               (let last_calls = int_of_n (List.nth sts (List.length sts - 1)).s_obs.o_calls in
+                let sts2 = List.map (fun st -> { st with s_obs = { st.s_obs with o_calls = ni (int_of_n st.s_obs.o_calls - base) } }) sts in
+                let log2 = K_reader.take_n (last_calls - base) (drop base log) in
+                c06_monitor client op (List.exists (fun x -> x) xs) size sts2 log2)) all in
+             if ok then None
+             else Some "with SetExtensions between messages: a message is not one well-formed message carrying exactly the reserved bits of the extensions attached at that time"
+           end
            else if List.exists (function WReset _ | WSetExt _ -> true | _ -> false) ops_l || List.length exts > 1 then None
            else if List.exists (function WResetOp _ -> true | _ -> false) ops_l then begin
              (* the quick opcode reset: what was buffered is dropped, then the writer behaves as a new one
